@@ -360,5 +360,9 @@ Definition cli_dispatch (fn : Z) (a : tree) : tree :=
                       else if c =? 3 then CmdX false true else if c =? 4 then CmdX true true
                       else if c =? 5 then CmdT else CmdI in
            TI (proc_status (cli_run v (cli_result_of cmd L)))
+  (* FN 311 cli_volsize_all : str -> (valid conv in_help_grammar help_size has_unit_suffix) *)
+  | 311 => let s := of_bytes a in
+           TL [t_bool (check_volumesize_valid s); t_ucres (volumesize_unitconv_x s); t_bool (in_help_grammar s);
+               TI (help_size s); t_bool (has_unit_suffix s)]
   | _ => TL [TI (-2)]
   end.
